@@ -829,6 +829,14 @@ impl MockCluster {
     pub fn set_in_ring(&self, node: usize, yes: bool) {
         self.lock().nodes[node].spec.in_ring = yes;
     }
+    /// "Restart with other sharding parameters": connections accepted from now on are bound (and SUPPORTED answers) per
+    /// the new (nr_shards, msb_ignore) / None = not sharded; open connections keep the shard they have - close them
+    /// yourself. The round-robin counter of the plain port restarts at 0. A node built unsharded has no shard-aware listener.
+    pub fn set_sharding(&self, node: usize, shards: Option<(u16, u8)>) {
+        let mut st = self.lock();
+        st.nodes[node].spec.shards = shards;
+        st.nodes[node].rr_shard = 0;
+    }
     pub fn set_tokens(&self, node: usize, tokens: Vec<i64>) {
         self.lock().nodes[node].spec.tokens = tokens;
     }
